@@ -96,10 +96,32 @@ func withRecover(x int) (r int) {
 	return x
 }
 
+var tail int
+
+// functions whose LAST statement is a defer (directly, or inside a trailing if)
+func tailDefer(x int) {
+	tail += x
+	defer func() {
+		tail += 100
+	}()
+}
+
+func tailDeferIf(x int) {
+	tail += x * 2
+	if x >= 0 {
+		defer hook.Ev("tail-if", x)
+	}
+}
+
 func Main() {
 	n := 1 + hook.Choose(3)
+	tail = 0
 	for i := 0; i < n; i++ {
-		switch hook.Choose(7) {
+		switch hook.Choose(8) {
+		case 7:
+			tailDefer(i + 1)
+			tailDeferIf(i)
+			hook.Ev("tail", tail)
 		case 6:
 			hook.Ev("long", longLoop(38+hook.Choose(20)))
 		case 0:
